@@ -115,7 +115,8 @@ Proof.
   assert (Hn : 0 < 24 <= MAX_BLOB_SIZE) by (vm_compute; split; [reflexivity|discriminate]).
   assert (Hacc : acceptable T_HASH (Some 24) T_R = true) by (vm_compute; reflexivity).
   assert (Hlen : zlen T_WIT = 24) by (vm_compute; reflexivity).
-  assert (Hok : Forall sched_ok [EvData T_HDR; EvDrain; EvData T_WIT]) by (repeat constructor).
+  assert (Hok : Forall sched_ok [EvData T_HDR; EvDrain; EvData T_WIT]).
+  { constructor; [cbn; discriminate|]. constructor; [exact I|]. constructor; [cbn; discriminate|constructor]. }
   exact (honest_transfer_completes toy_H toy_json T_HDR T_R T_HASH 24 T_WIT toy_parse toy_end toy_noprefix toy_short
            eq_refl Hn Hacc Hlen eq_refl None 3 toy_c0 _ toy_start Hok eq_refl).
 Qed.
